@@ -4,6 +4,7 @@ CONSTANTS
   Sources <- Both
   BaseDepth = 2
   FinalOps = "few"
+  StartCalcs <- NoStartCalc
   Emit = FALSE
 INVARIANT KF2Gone
 CHECK_DEADLOCK FALSE
